@@ -209,6 +209,8 @@ func TestC19(t *testing.T) {
 	rapid.Check(t, func(t *rapid.T) {
 		if rapid.IntRange(0, 2).Draw(t, "mode") > 0 {
 			c19RoundTrip(t)
+		} else if hx.Rarely(t, 6, "untypable") {
+			c19Untypable(t)
 		} else {
 			c19ResultSet(t)
 		}
